@@ -344,7 +344,35 @@ def graph_leg(name, module, tier_env, to_events, what, workers=8, mc_module=None
     return leg
 
 
+def apalache_leg(module, inv, length, what):
+    """An Apalache lemma over unbounded integers on spec/apalache/<module>.tla. A failure is a
+    specification error (exit 2), never a verdict about the code."""
+    def leg(ctx):
+        scratch = ctx['scratch']
+        d = tempfile.mkdtemp(prefix='apalache-', dir=scratch)
+        shutil.copy(os.path.join(SPEC, 'apalache', module + '.tla'), d)
+        t0 = time.time()
+        cmd = ['apalache-mc', 'check', '--length=%d' % length, '--inv=' + inv, '--out-dir=' + os.path.join(d, 'out'), module + '.tla']
+        try:
+            p = subprocess.run(cmd, cwd=d, capture_output=True, text=True, timeout=900,
+                               env=dict(os.environ, JVM_ARGS='-Xmx4g -Djava.io.tmpdir=' + d))
+        except subprocess.TimeoutExpired:
+            raise HarnessError('apalache timed out on %s' % module)
+        out = p.stdout + p.stderr
+        if 'The outcome is: NoError' not in out:
+            raise HarnessError('apalache did not prove %s!%s:\n%s' % (module, inv, tail(out, 30)))
+        log('[apalache] %s!%s holds (%s) %.1fs' % (module, inv, what, time.time() - t0))
+        return ({'kind': 'mbt', 'info': {'apalache': '%s.tla --inv=%s --length=%d' % (module, inv, length), 'what': what,
+                                         'outcome': 'NoError', 'secs': round(time.time() - t0, 1)}}, [])
+    return leg
+
+
 def apalache_masks_leg(ctx):
+    return apalache_leg('Masks', 'Inv', 1, 'RandomID masks for all pairs of 63-bit draws')(ctx)
+
+
+def _unused_old_masks_leg(ctx):
+
     """C19: the mask lemma of RandomID for all pairs of 63-bit draws, discharged by Apalache
     (unbounded integers) on spec/apalache/Masks.tla. A failure is a specification error."""
     scratch = ctx['scratch']
